@@ -312,7 +312,28 @@ fn oracle_episode(w: &mut World, history: &[String], out: &mut Out) {
             }
         }
     }
-    // CRDT: two crdts of one address that applied the same set of ops (any order) read the same
+    // CRDT: the same set of operations delivered through apply_op in two different orders (with a duplicate)
+    // must present the same current value
+    for addr_id in [1u64, 2] {
+        let ops: Vec<(u64, RegisterOp)> = w.ops.iter().filter(|(_, i)| i.addr == addr_id && i.sig_ok).map(|(k, i)| (*k, i.op.clone())).collect();
+        if ops.len() < 2 {
+            continue;
+        }
+        let addr = w.addrs[addr_id as usize - 1];
+        let (mut fwd, mut rev) = (RegisterCrdt::new(addr), RegisterCrdt::new(addr));
+        for (_, o) in ops.iter() {
+            let _ = fwd.apply_op(o.clone());
+        }
+        let _ = fwd.apply_op(ops[0].1.clone());
+        for (_, o) in ops.iter().rev() {
+            let _ = rev.apply_op(o.clone());
+        }
+        if fwd.read() != rev.read() || fwd.size() != rev.size() {
+            let ids: Vec<String> = ops.iter().map(|(k, _)| k.to_string()).collect();
+            out.oracle_fail("same-ops-same-value", &hist, &format!("ops [{}] applied in declaration order vs reverse order give different current values / sizes ({} vs {} entries)", ids.join(" "), fwd.size(), rev.size()));
+        }
+    }
+    // CRDT: two crdts of one address that exchanged state read the same
     let cids: Vec<u64> = w.crdts.keys().copied().collect();
     for &a in &cids {
         for &b in &cids {
